@@ -1,13 +1,29 @@
+// Foreign test library for C19 (built in place of the repository's `ffi` example crate, inside the scratch copy).
+// VERIF_FFI_TAG (compile-time) distinguishes two builds of the same library.
 use bytecode::BytecodePrimitive;
 use bytecode::FFIReturnValue;
 use bytecode::{int, raise_error};
+
+const TAG: &str = match option_env!("VERIF_FFI_TAG") {
+    Some(t) => t,
+    None => "A",
+};
 
 /// prints its arguments in the order received and returns 42
 #[no_mangle]
 pub fn echo(args: &[BytecodePrimitive]) -> FFIReturnValue {
     let shown: Vec<String> = args.iter().map(|a| format!("{a}")).collect();
-    println!("ECHO n={} args=[{}]", args.len(), shown.join(","));
+    println!("ECHO[{TAG}] n={} args=[{}]", args.len(), shown.join(","));
     FFIReturnValue::Value(int!(42))
+}
+
+/// returns its first argument unchanged (any kind)
+#[no_mangle]
+pub fn first(args: &[BytecodePrimitive]) -> FFIReturnValue {
+    match args.first() {
+        Some(a) => FFIReturnValue::Value(a.clone()),
+        None => FFIReturnValue::NoValue,
+    }
 }
 
 /// reports an error through the FFI error channel
